@@ -777,3 +777,136 @@ def c14(p, tier, replay):
     return v.finish("model_checking", cov, [
         "AES-256-GCM of `ring` is an ideal AEAD (forgery probability 2^-128 treated as 0)",
         "the nonce is random per file: tampering is enumerated on freshly written files"])
+
+# ------------------------------------------------------------------------------------------------
+# C10 version tolerance, C11 by-reference passing  (AbiVer.tla -> generated interface families -> real connections)
+# ------------------------------------------------------------------------------------------------
+def abiver_pipeline(tier, replay):
+    recs = os.path.join(WORK, "abiver_%s.ndjson" % tier)
+    r = vlib.run_tlc("AbiVer.tla", "AbiVer_%s.cfg" % tier, "abiver_" + tier, workers=8, timeout=3000)
+    if r["violated"]:
+        raise ToolError("AbiVer: TLC reports a violation in the specification itself (see %s)" % r["out"])
+    if vlib.printed_json(r["out"], recs) == 0:
+        raise ToolError("AbiVer produced no behaviours")
+    p = subprocess_run([sys.executable, os.path.join(vlib.ROOT, "gen", "gen_abi.py"), os.path.join(HARNESS, "genabi"), recs])
+    log("[gen] abi %s" % p)
+    binp = vlib.cargo_build("abi")
+    sel = recs
+    if replay:
+        rec = json.load(open(replay))["record"]
+        sel = os.path.join(WORK, "abiver_replay.ndjson")
+        with open(sel, "w") as o:
+            for line in open(recs):
+                if '"kind":"family"' in line:
+                    o.write(line)
+            o.write(json.dumps(rec) + "\n")
+    res = sel + ".res"
+    vlib.run_bin(binp, ["replay", sel, res])
+    return r["stats"], sel, res
+
+def subprocess_run(cmd):
+    import subprocess
+    p = subprocess.run(cmd, stdout=subprocess.PIPE, stderr=subprocess.PIPE)
+    if p.returncode != 0:
+        sys.stderr.write(p.stderr.decode())
+        raise ToolError("%s failed" % cmd[1])
+    return p.stdout.decode().strip()
+
+@prop("C10")
+def c10(p, tier, replay):
+    v = Verdict(p, tier)
+    stats, recs, res = abiver_pipeline(tier, replay)
+    records = open(recs).read().splitlines()
+    n, nontrivial, samples = 0, 0, []
+    for line in open(res):
+        rr = json.loads(line)
+        if rr["kind"] != "result":
+            continue
+        rec = json.loads(records[rr["i"]])
+        n += 1
+        if rec["i"] != rec["j"]:
+            nontrivial += 1
+        if len(samples) < 3 and rec["i"] != rec["j"] and rec["outcome"] == "returned" and rec["method"] in ("mid", "rem", "echo"):
+            samples.append({k: rec[k] for k in ("fam", "i", "j", "eff", "method", "args", "seen", "ret", "got")})
+        for f in rr["fails"]:
+            if f["check"].startswith("tool."):
+                raise ToolError("harness: %s %s" % (f["check"], f["detail"]))
+            v.report(f["check"], {"t": None}, "family %s caller v%s implementation v%s method %s :: %s" % (
+                rec["fam"], rec["i"], rec["j"], rec["method"], f["detail"][:300]), rec)
+    cov = {"states": stats["distinct"], "transitions": stats["generated"], "traces_validated_against_impl": n,
+           "evaluations": n, "distinct_nontrivial": nontrivial,
+           "rule": "every behaviour of AbiVer.tla: interface family x (caller version i, implementation version j) x method x argument choice x returned value; "
+                   "non-trivial = i != j",
+           "samples": samples, "exhaustive": not replay,
+           "explanation": "TLC explores the negotiation and call protocol over interface families evolved by the documented rules (fields added at the end and in "
+                          "the middle, AbiRemoved fields, appended variants, methods added and removed, incompatible signature changes) for all ordered version "
+                          "pairs and proves EffectiveIsMin, ArgTransparent / RetTransparent against the Down/Load oracles, MissingMethodConnects, "
+                          "MissingPanicsAtCall and IncompatibleRejected; every behaviour is replayed with generated traits: a version-i AbiConnection joined to a "
+                          "version-j logging implementation, comparing connect result, observed arguments, received return value and the missing-method panic"}
+    return v.finish("model_checking", cov, EVO_ASSUME + [
+        "both sides are compiled in one process and joined with from_boxed_trait_for_test (a second compiler version is not available offline)",
+        "argument values are restricted to enum variants that exist at the negotiated version (documented panic otherwise)"])
+
+@prop("C11")
+def c11(p, tier, replay):
+    v = Verdict(p, tier)
+    # ---- schema part: LayoutCompat => SameLayout on the schema universe, real layout_compatible replayed
+    if replay and "pairs" in json.load(open(replay))["record"]:
+        sstats, srecs, sres = schema_pipeline(tier, replay)
+    else:
+        sstats, srecs, sres = schema_pipeline(tier, None)
+    srecords = open(srecs).read().splitlines()
+    npairs = 0
+    for line in open(sres):
+        rr = json.loads(line)
+        rec = json.loads(srecords[rr["i"]])
+        npairs += len(rec["pairs"])
+        for f in rr["fails"]:
+            if f["check"].startswith("c11.layout.unsound") or f["check"].startswith("c11.layout.panic"):
+                v.report(f["check"], {"t": None}, f["detail"], rec)
+    # ---- connection part: real by-reference decisions validated by TLC, transparency replayed
+    stats, recs, res = abiver_pipeline(tier, None)
+    obs = os.path.join(WORK, "c11_%s.obs" % tier)
+    masks = []
+    records = open(recs).read().splitlines()
+    with open(obs, "w") as o:
+        for line in open(res):
+            rr = json.loads(line)
+            if rr["kind"] == "mask":
+                masks.append(rr)
+                o.write(json.dumps(rr) + "\n")
+            elif rr["kind"] == "result":
+                rec = json.loads(records[rr["i"]])
+                for f in rr["fails"]:
+                    if f["check"] in ("c10.args", "c10.ret", "c10.call.panic"):
+                        v.report("c11." + f["check"], {"t": None}, "family %s caller v%s implementation v%s method %s :: %s" % (
+                            rec["fam"], rec["i"], rec["j"], rec["method"], f["detail"][:300]), rec)
+    r = vlib.run_tlc("AbiTrace.tla", "AbiTrace.cfg", "abitrace_" + tier, workers=4, timeout=1200, extra_env={"OBS": obs}, java_opts="-Xss1g")
+    if r["violated"]:
+        raise ToolError("AbiTrace: unexpected TLC error (see %s)" % r["out"])
+    verd = obs + ".verdicts"
+    vlib.printed_json(r["out"], verd)
+    byref = 0
+    for line in open(verd):
+        j = json.loads(line)
+        m = masks[j["i"] - 1]
+        if j["verdict"] == "ok-by-reference":
+            byref += 1
+        if not j["verdict"].startswith("ok"):
+            v.report("c11.mask", {"t": None}, "family %s caller v%s implementation v%s method %s arg %s passed by reference, schemas %s / %s" % (
+                m["fam"], m["i"], m["j"], m["method"], m["arg"], json.dumps(m["sa"])[:150], json.dumps(m["sb"])[:150]), m)
+    samples = [{k: m[k] for k in ("fam", "i", "j", "method", "arg", "passable")} for m in masks if m["i"] != m["j"]][:4]
+    cov = {"states": sstats["distinct"] + stats["distinct"] + r["stats"]["distinct"],
+           "transitions": sstats["generated"] + stats["generated"] + r["stats"]["generated"],
+           "traces_validated_against_impl": len(masks) + npairs, "evaluations": len(masks) + npairs, "distinct_nontrivial": byref + npairs,
+           "rule": "schema pairs: every schema of the SchemaMC universe with itself, each single wire mutant and each single layout-annotation mutant; "
+                   "connections: every (family, i, j, method, argument) of the AbiVer model; non-trivial = arguments really passed by reference, and all schema pairs",
+           "by_reference_arguments": byref, "samples": samples, "exhaustive": True,
+           "explanation": "TLC proves LayoutCompat => SameLayout and LayoutReflexive over the schema universe (sizes, alignments, offsets, discriminant width, "
+                          "explicit repr, Vec/String layout, nothing unknown) and the real Schema::layout_compatible is replayed on every pair; for real connections "
+                          "between interface versions the REAL get_arg_passable_by_ref decision and the REAL native schemas are recorded and TLC (AbiTrace) validates "
+                          "decision => SameLayout; the AbiVer replay shows the values observed by the implementation are those of the model whichever way they travel"}
+    return v.finish("model_checking", cov, [
+        "separately compiled peers are approximated by distinct type definitions in one build; a different compiler or -Zrandomize-layout build of the "
+        "implementation is not exercised (the layout facts compared are those the running code itself records in its schemas)",
+        "pointer kinds (Box, reference, slice) are transparent for the layout rule, as in the implementation: what is compared is the pointee"])
